@@ -251,8 +251,18 @@ func runHistory(limit int64, mode string, ops []op) (obs []string, evs [][][2]in
 	return
 }
 
+// The generator runs every case once for its labels; exec reuses that run's output instead of running
+// the case a second time (replays and corpus lines come through exec alone).
+var memoIn, memoOut string
+
 func exec(in string) string {
+	if in == memoIn && in != "" {
+		return memoOut
+	}
 	f := strings.Fields(in)
+	if len(f) >= 3 && f[0] == "B" {
+		return execBig(in)
+	}
 	if len(f) < 3 || f[0] != "H" {
 		return "?"
 	}
@@ -400,7 +410,15 @@ func emit(g *tr.G, limit int64, mode string, ops []op) {
 			tags["big-sizes-near-int64"] = true
 		}
 		ref := &refLRU{limit: limit, size: sf}
-		_, evs, flags := runHistory(limit, mode, ops)
+		var obs []string
+		var evs [][][2]int
+		var flags []stepFlags
+		if hung := tr.Guard(5*time.Second, func() { obs, evs, flags = runHistory(limit, mode, ops) }); hung != "" {
+			memoIn, memoOut = in, hung
+			evs, flags = nil, nil
+		} else {
+			memoIn, memoOut = in, strings.Join(obs, ";")
+		}
 		removed := false
 		for i, o := range ops {
 			present := ref.find(o.key) >= 0
@@ -642,5 +660,7 @@ func main() {
 			// the boundary itself: two values of size 2^62-1... (63<<56 = 2^62 - 2^56; 127<<55 likewise)
 			emit(g, maxLim, "b55", []op{{kind: 'p', key: 0, val: 127}, {kind: 'p', key: 1, val: 127}, {kind: 's'}, {kind: 'p', key: 2, val: 1}, {kind: 's'}, {kind: 'l'}})
 			emit(g, maxLim, "b56", []op{{kind: 'p', key: 0, val: 63}, {kind: 'p', key: 1, val: 63}, {kind: 'p', key: 2, val: 63}, {kind: 's'}, {kind: 'g', key: 1}, {kind: 'p', key: 3, val: 62}, {kind: 's'}})
+			// big caches: 2^k-1, 2^k, 2^k+1 entries (B lines, scale.go)
+			genScale(g)
 		})
 }
